@@ -26,8 +26,9 @@ SEEDED_DIR = os.path.join(VERIF, 'seeded')
 
 
 def _run_rules(pid, mod, root=None, overlay=None):
-  repo = Repo(root=root, overlay=overlay)
-  check = Check(pid, 'thorough', repo, Types(repo))
+  from .inline import load_program
+  repo, types = load_program(root=root, overlay=overlay)
+  check = Check(pid, 'thorough', repo, types)
   mod.run(check)
   known, _ = load_known()
   keys = {k['key'] for k in known if k['property'] == pid}
